@@ -175,6 +175,13 @@ func scenRegistry(s *spec.RunSpec, res *spec.RunResult, finish func(*World)) {
 	}
 	// first segments (nonce + encrypted metadata), built by the reference codec at
 	// the instant they are presented (key slot and timestamp must be fresh)
+	segNonce := func(i int) [24]byte {
+		var nonce [24]byte
+		for j := range nonce {
+			nonce[j] = byte(simnet.H(s.Seed, "regnonce", uint64(i), uint64(j)))
+		}
+		return nonce
+	}
 	buildSeg := func(i int) []byte {
 		sg := rs.Segs[i]
 		now := time.Now().Unix()
@@ -183,10 +190,7 @@ func scenRegistry(s *spec.RunSpec, res *spec.RunResult, finish func(*World)) {
 			cred = credOf(sg.Cred)
 		}
 		key := refproto.KeyForSlot(refproto.HashedPassword(cred), refproto.SlotOf(now))
-		var nonce [24]byte
-		for j := range nonce {
-			nonce[j] = byte(simnet.H(s.Seed, "regnonce", uint64(i), uint64(j)))
-		}
+		nonce := segNonce(i)
 		hintName := ""
 		switch {
 		case sg.Hint >= 0:
@@ -217,15 +221,29 @@ func scenRegistry(s *spec.RunSpec, res *spec.RunResult, finish func(*World)) {
 				cands = append(cands, rs.Universe[i].Name)
 			}
 		}
-		hinted := ""
-		if sg.Hint >= 0 {
-			hinted = rs.Universe[sg.Hint].Name
+		// the users the hint names: every user of the set whose 4-byte hint under this
+		// segment's nonce equals the hint the segment carries (two names may collide)
+		named := map[string]bool{}
+		if sg.Hint >= 0 || sg.Hint == -1 {
+			hn := "no-such-user"
+			if sg.Hint >= 0 {
+				hn = rs.Universe[sg.Hint].Name
+			}
+			np := segNonce(g)
+			want4 := refproto.UserHint(hn, np[:])
+			for _, i := range rs.Sets[v] {
+				if refproto.UserHint(rs.Universe[i].Name, np[:]) == want4 {
+					named[rs.Universe[i].Name] = true
+				}
+			}
 		}
 		for _, c := range cands {
-			if c == hinted {
-				out[c] = true // the hinted user wins
-				return out
+			if named[c] {
+				out[c] = true // a user named by the hint wins
 			}
+		}
+		if len(out) > 0 {
+			return out
 		}
 		if mand || len(cands) == 0 {
 			out["<reject>"] = true
